@@ -21,20 +21,27 @@ RULE = (
     "member identity, the Grid's axes settings, link table and metric registry, the dataset) is taken before and after "
     "every call, whether it returns or raises, and must be equal; every call's outcome is compared with the same "
     "operation run first on a freshly built world. Constructor arguments (coords, boundary, fill_value, periodic, "
-    "default_shifts, metrics, face_connections) are snapshotted around Grid(...). Class = (world, operation, position in "
+    "default_shifts, metrics, face_connections) are snapshotted around Grid(...); one case in eleven builds the Grid from "
+    "COMODO / SGRID metadata (c_grid_axis_shift spelt as float, text, numpy scalar or one-element array) and snapshots the "
+    "dataset around Grid(ds), a diff, and a second Grid(ds). Class = (world, operation, position in "
     "the history, previous operations); non-trivial iff the operation is not the first of its history or takes a dictionary."
 )
 REQUIRED_REACH = ["xgcm.padding._pad_face_connections", "xgcm.grid.Grid._1d_grid_ufunc_dispatch", "xgcm.transform.transform",
                   "xgcm.grid.Grid._apply_vector_function", "xgcm.grid.Grid.interp_like"]
 
 SIMPLE_OPS = ["diff", "interp", "min", "max", "cumsum", "cumint", "derivative", "integrate", "average", "get_metric", "interp_like",
-              "ufunc", "gu_call", "gu_override", "pad", "vec_diff", "vec_interp", "diff_multi", "mw_diff", "transform_lin", "transform_cons", "transform_anon",
+              "ufunc", "gu_call", "gu_override", "pad", "vec_diff", "vec_interp", "diff_multi", "mw_diff", "transform_lin", "transform_log", "transform_cons", "transform_anon",
               "lazy_diff", "bad_axis", "bad_to", "bad_boundary", "bad_fill", "diff_to_dict", "interp_to_none", "max_to_none_u"]
 FACE_OPS = ["diff", "interp", "max", "vec_diff", "vec_interp", "vec_multi", "diff_2d_vector", "interp_2d_vector", "pad_scalar",
             "pad_vector", "lazy_vec", "bad_axis", "vec_no_other", "cumsum"]
 
 
 def gen_case(rng, i, tier):
+    if i % 11 == 5:
+        # a Grid built from the dataset's own metadata (COMODO / SGRID), the attributes spelt as files deliver them
+        from . import c14
+
+        return {"world": "parsed", "d": c14.gen_case(rng, i, tier), "seed": rng.getrandbits(31), "seq": ["Grid", "diff", "Grid"]}
     if i % 3 == 2:
         # the corpora of C01 / C09 as workload: every shift (padded and unpadded paths), every spelling, 1-3 axes
         from . import c01, c09
@@ -203,6 +210,8 @@ def do(op, W, g, desc):
             return g.diff(W["da"], W["axes_list"], to=W["T"], boundary=W["B"], metric_weighted=W["MW"])
         if op == "transform_lin":
             return g.transform(W["dz"], "Z", W["levels"], target_data=W["td_named"])
+        if op == "transform_log":
+            return g.transform(W["dz"], "Z", W["levels"], target_data=W["td_named"], method="log")
         if op == "transform_cons":
             return g.transform(W["dz"], "Z", W["bins"], target_data=W["td_outer"], method="conservative")
         if op == "transform_anon":
@@ -327,9 +336,69 @@ def run_corpus(ctx, desc):
         ctx.violation("history-independent", f"{op} {shifts}: result on re-used objects differs from the result on fresh objects")
 
 
+def run_parsed(ctx, desc):
+    """Grid(ds) parsing the dataset's metadata must leave the dataset (values, attributes and their types) alone."""
+    import random
+
+    import xarray as xr
+    from xgcm import Grid
+
+    from ..models import conventions as conv
+
+    d = desc["d"]
+    rng = random.Random(d["aseed"])
+    if d["conv"] == "comodo":
+        ds = conv.comodo_dataset(d["spec"], rng)
+        r2 = random.Random(desc["seed"])
+        for name, v in ds.variables.items():
+            if "c_grid_axis_shift" in v.attrs:
+                val = v.attrs["c_grid_axis_shift"]
+                # as read from files: text, single precision, a numpy scalar, a one-element array
+                v.attrs["c_grid_axis_shift"] = r2.choice([val, val, str(val), np.float32(val), np.float64(val), np.array([val])])
+    else:
+        ds = conv.sgrid_dataset(d["spec"], d["kind"], rng, with_comodo=d["with_comodo"], entry_order_seed=d.get("entry_order"))
+    s0 = snapshot.snap(ds)
+    ctx.judged(("parsed-constructor", d["conv"], d.get("kind")), True)
+    try:
+        with warnings.catch_warnings():
+            warnings.simplefilter("ignore")
+            g = Grid(ds, periodic=False)
+    except Exception as e:
+        ctx.count("parsed_ctor_raised_" + type(e).__name__)
+        g = None
+    s1 = snapshot.snap(ds)
+    if s1 != s0:
+        ctx.violation("arguments-unmodified", f"Grid(ds) parsing {d['conv']} metadata modified the dataset: {snapshot.diff(s0, s1, 'ds')}")
+        return
+    if g is None:
+        return
+    ax0 = {a: dict(ax.coords) for a, ax in g.axes.items()}
+    for a, ax in d["spec"].items():
+        others = [p for p in ax["pos"] if p != "center"]
+        if "center" not in ax["pos"] or not others or a not in g.axes:
+            continue
+        dims = [x["pos"]["center"] for x in d["spec"].values() if "center" in x["pos"]]
+        da = xr.DataArray(gen.quarter_data(desc["seed"], [ds.sizes[k] for k in dims]), dims=dims, name="t")
+        sd = snapshot.snap(da)
+        res = outcome(lambda: g.diff(da, a, to=others[0], boundary="extend"))
+        ctx.judged(("parsed-unmodified", d["conv"], res[0]), True)
+        if snapshot.snap(ds) != s0 or snapshot.snap(da) != sd:
+            ctx.violation("arguments-unmodified", f"diff on a Grid parsed from {d['conv']} metadata modified the dataset or its input")
+            return
+        break
+    ctx.judged(("parsed-history-independent", d["conv"]), True)
+    with warnings.catch_warnings():
+        warnings.simplefilter("ignore")
+        gb = Grid(ds, periodic=False)
+    if {a: dict(ax.coords) for a, ax in gb.axes.items()} != ax0 or list(gb.axes) != list(g.axes):
+        ctx.violation("history-independent", f"a second Grid(ds) on the same dataset parses other axes: {list(gb.axes)} vs {list(g.axes)}")
+
+
 def run_case(ctx, desc):
     if desc["world"] == "corpus":
         return run_corpus(ctx, desc)
+    if desc["world"] == "parsed":
+        return run_parsed(ctx, desc)
     W = build_world(desc)
     names = sorted(W)
     before = {k: snapshot.snap(W[k]) for k in names}
